@@ -368,3 +368,16 @@ func taskNames(ts []*sim.Task) string {
 	}
 	return strings.Join(s, ", ")
 }
+
+
+// passThrough re-panics the two panic values that are not the library's: the scheduler unwinding a
+// task at teardown, and a simulator primitive reached outside a simulation (the runner answers that
+// one by running the world again under the scheduler). Every recover() in a world starts with it.
+func passThrough(p any) {
+	if p == sim.Killed {
+		panic(p)
+	}
+	if _, ok := p.(sim.OutsideSim); ok {
+		panic(p)
+	}
+}
